@@ -85,6 +85,7 @@ type inode struct {
 	isDir    bool
 	data     []byte
 	children map[string]*inode // directories
+	ever     map[string]bool   // directories: every name that was ever an entry
 	parent   *inode            // directories only (nil for root and removed dirs)
 	linked   bool              // false once unlinked / removed
 }
@@ -119,8 +120,15 @@ func (m *model) newInode(dir bool) *inode {
 	n := &inode{id: m.nextID, isDir: dir, linked: true}
 	if dir {
 		n.children = map[string]*inode{}
+		n.ever = map[string]bool{}
 	}
 	return n
+}
+
+// link makes node an entry of directory d.
+func (d *inode) link(name string, node *inode) {
+	d.children[name] = node
+	d.ever[name] = true
 }
 
 // lowestFree is the POSIX rule: the lowest-numbered descriptor not open.
